@@ -11,6 +11,7 @@ generated document:
              load + finalize of it gives the finalized document again
 """
 import os
+import uuid
 import warnings
 
 from vlib import core, gen, model
@@ -96,10 +97,17 @@ def gen_case(rng, idx, sdir):
               definition=rng.choice([None, "target def"]), reference=rng.choice([None, "tref"]))
         if depth > 0:
             s["sections"] = [tsec("%s_%d" % (name, i), depth - 1) for i in range(rng.choice([0, 1, 2]))]
+            for c in s["sections"]:
+                if rng.random() < 0.12:
+                    # a Section that was created without a name: its id serves as name
+                    c["id"] = c["name"] = str(uuid.UUID(int=rng.getrandbits(128), version=4))
         return s
     targets = [tsec("T%d" % i, rng.choice([0, 1, 2])) for i in range(rng.choice([1, 2, 3]))]
     zone_t = S("targets", "zone", [], targets)
-    tpaths = [("targets",) + p for p, _ in all_secs(zone_t)]
+    # both zones directly below the Document (canonical links are absolute) or below a shared ancestor
+    # (the canonical link between them is relative)
+    prefix = rng.choice([(), (), ("world",), ("world", "lab")])
+    tpaths = [prefix + ("targets",) + p for p, _ in all_secs(zone_t)]
     exts = []
     if rng.random() < 0.45:
         for k in range(rng.choice([1, 2, 2])):
@@ -118,13 +126,13 @@ def gen_case(rng, idx, sdir):
             ext = exts[which]
             ext_targets = [p for p, _ in all_secs(ext)]
         depth = rng.choice([0, 1, 2])
-        lpath = ("linkers",) + tuple("h%d_%d" % (i, d) for d in range(depth)) + ("L%d" % i,)
+        lpath = prefix + ("linkers",) + tuple("h%d_%d" % (i, d) for d in range(depth)) + ("L%d" % i,)
         if use_ext:
             tp = rng.choice(ext_targets)
             tmodel = find_path(ext, list(tp))
         else:
             tp = rng.choice(tpaths)
-            tmodel = find_path({"sections": [zone_t]}, list(tp))
+            tmodel = find_path({"sections": [zone_t]}, list(tp[len(prefix):]))
         own_p, own_s = [], []
         if mode == "other-names":
             own_p = props(rng.choice([1, 2]), "own")
@@ -158,6 +166,8 @@ def gen_case(rng, idx, sdir):
     top = [zone_t, zone_l]
     if rng.random() < 0.5:
         top.reverse()
+    for nm in reversed(prefix):
+        top = [S(nm, "zone", props(rng.choice([0, 1]), "wp"), top)]
     doc = {"k": "doc", "id": None, "author": "a", "version": None, "date": None, "repository": None, "sections": top}
     return {"doc": enc(doc), "ext": [enc(e) for e in exts] if exts else None, "links": links, "i": idx}
 
